@@ -84,12 +84,15 @@ func (s *JavaAPIListener) EnterAnnotation(ctx *parser.AnnotationContext) {
 		isSpringRestController = true
 	}
 
-	if !isSpringRestController {
+	if !hasEnterClass {
+		// class-level annotation: it only contributes the base path (whether it is written before or
+		// after the controller annotation), it is not a handler mapping
+		buildBaseApiUrlString(annotationName, ctx)
 		return
 	}
 
-	if !hasEnterClass {
-		buildBaseApiUrlString(annotationName, ctx)
+	if !isSpringRestController {
+		return
 	}
 
 	notAPI := annotationName == "RequestMapping" || annotationName == "GetMapping" || annotationName == "PutMapping" || annotationName == "PostMapping" || annotationName == "DeleteMapping"
